@@ -41,7 +41,8 @@ def gen_case(rs, tier):
         r = krng.choice([0, 0, 1, 2, 3])
     knobs = common.draw_knobs(krng)
     return {"design": ast, "knobs": knobs, "r": r, "bad_trial": krng.randint(0, 7), "n": krng.choice([1, 2]),
-            "strategy": krng.choice(["IterateSATGen", "RandomGen"])}
+            "strategy": krng.choice(["IterateSATGen", "RandomGen"]),
+            "second_call": W.stream(rs, "second").choice([0, 0, 1, 2])}
 
 
 def run_case(case):
@@ -96,45 +97,62 @@ def run_case(case):
         # several uniform factors with identical parameters would confuse the script's trial counter
         same_params = [f for f in conts if f["dist"]["kind"] == "uniform" and cfid and f["id"] != cfid and
                        (f["dist"]["lo"], f["dist"]["hi"]) == (fb[cfid]["dist"]["lo"], fb[cfid]["dist"]["hi"])]
-        viols = []
-        dependent = 0
-        for si, e in enumerate(res):
-            seq_by_id = {}
-            for f in conts:
-                col = e.get(f["name"])
-                if col is None:
-                    viols.append(("C22/missing-continuous-column", "sequence %d lacks %s" % (si, f["name"])))
-                    continue
-                if len(col) != T:
-                    viols.append(("C22/continuous-column-length", "sequence %d: %s has %d values for %d trials" % (si, f["name"], len(col), T)))
-                seq_by_id[f["id"]] = list(col)
-            for f in ast["factors"]:
-                if f["kind"] == "basic" and f["name"] in e:
-                    seq_by_id[f["id"]] = list(e[f["name"]])
-            if viols:
-                break
-            for c in ccons:
-                for t in range(T):
-                    vals = [seq_by_id[x][t] for x in c["factors"]]
-                    if not contin.eval_pred(c["pred"], vals):
-                        viols.append(("C22/constraint-violated-in-returned-values", "sequence %d trial %d: %r does not satisfy %r" % (si, t, vals, c["pred"])))
-                        break
-            for f in conts:
-                d = f["dist"]
-                if d["kind"] != "custom" or not d["deps"] or d.get("noise"):
-                    continue
-                if any(("factor" in dep and dep["factor"] not in seq_by_id) for dep in d["deps"]):
-                    continue
-                dependent += 1
-                want = contin.expected_dependent(f, seq_by_id, None, T)
-                got = seq_by_id[f["id"]]
-                for t in range(min(T, len(got))):
-                    if not contin.same(got[t], want[t]):
-                        has_win = any("window" in dep for dep in d["deps"])
-                        tag = "window" if has_win else ("cumulative" if d.get("cumulative") else "same-trial")
-                        viols.append(("C22/dependent-value-mismatch/" + tag,
-                                      "sequence %d factor %s trial %d: returned %r, recomputed from the returned rows %r (dist=%s)" % (si, f["name"], t, got[t], want[t], json.dumps(d)[:300])))
-                        break
+        def validate(res_):
+            viols = []
+            dependent = 0
+            for si, e in enumerate(res_):
+                seq_by_id = {}
+                for f in conts:
+                    col = e.get(f["name"])
+                    if col is None:
+                        viols.append(("C22/missing-continuous-column", "sequence %d lacks %s" % (si, f["name"])))
+                        continue
+                    if len(col) != T:
+                        viols.append(("C22/continuous-column-length", "sequence %d: %s has %d values for %d trials" % (si, f["name"], len(col), T)))
+                    seq_by_id[f["id"]] = list(col)
+                for f in ast["factors"]:
+                    if f["kind"] == "basic" and f["name"] in e:
+                        seq_by_id[f["id"]] = list(e[f["name"]])
+                if viols:
+                    break
+                for c in ccons:
+                    for t in range(T):
+                        vals = [seq_by_id[x][t] for x in c["factors"]]
+                        if not contin.eval_pred(c["pred"], vals):
+                            viols.append(("C22/constraint-violated-in-returned-values", "sequence %d trial %d: %r does not satisfy %r" % (si, t, vals, c["pred"])))
+                            break
+                for f in conts:
+                    d = f["dist"]
+                    if d["kind"] != "custom" or not d["deps"] or d.get("noise"):
+                        continue
+                    if any(("factor" in dep and dep["factor"] not in seq_by_id) for dep in d["deps"]):
+                        continue
+                    dependent += 1
+                    want = contin.expected_dependent(f, seq_by_id, None, T)
+                    got = seq_by_id[f["id"]]
+                    for t in range(min(T, len(got))):
+                        if not contin.same(got[t], want[t]):
+                            has_win = any("window" in dep for dep in d["deps"])
+                            tag = "window" if has_win else ("cumulative" if d.get("cumulative") else "same-trial")
+                            viols.append(("C22/dependent-value-mismatch/" + tag,
+                                          "sequence %d factor %s trial %d: returned %r, recomputed from the returned rows %r (dist=%s)" % (si, f["name"], t, got[t], want[t], json.dumps(d)[:300])))
+                            break
+            return viols, dependent
+
+        viols, dependent = validate(res)
+        if not viols and case.get("second_call") and res:
+            # history: a later synthesize_trials call on the same block must not change what an earlier call returned
+            # (the caller still holds those dicts); the oracle is simply applied to the first result once more
+            try:
+                with common.time_limit(6):
+                    w.draw_cap = w.rng.draws + 50000
+                    w.peer_calls_cap = w.counters.get("peer.solve", 0) + 100
+                    common.synth(w, blk, case["strategy"], case["second_call"])
+                w.count("second-call")
+                viols2, _ = validate(res)
+                viols = [(sg + "/after-later-call", dt + " (the first call's result, re-checked after a second call on the same block)") for sg, dt in viols2]
+            except (common.InnerTimeout, W.HarnessCap):
+                pass
         attempts = state["attempt"]
         if ccons and not same_params and not viols and res and state["hooked"]:
             # bounded liveness only: the script makes exactly r attempts per sequence fail, so r+1 suffice; the statement
